@@ -343,12 +343,16 @@ pub enum HttpSpec {
     Resp(RespSpec),
 }
 
+/// `InstallSpec::concurrent` value: the installer polls its last progress report once, drops it and finishes in the same poll
+pub const IMPATIENT: u8 = 100;
+
 #[derive(Clone, Debug, PartialEq, Default)]
 pub struct InstallSpec {
     /// 0 installed, 1 deferred, 2 failed; padded with 0 / truncated to the number of offered apps
     pub results: Vec<u8>,
     pub progress: Vec<f32>,
     /// number of receive_progress calls kept in flight at once (0/1 = sequential)
+    /// 0/1 = sequential reports, n = batches of n reports in flight at once, IMPATIENT = the last report is not awaited
     pub concurrent: u8,
 }
 
